@@ -408,6 +408,11 @@ func genSumCase(r *Rng, prop string) []Op {
 	// C10 is about the sum that succeeds: half of its cases have nothing that makes it fail
 	// (patterns that match, equal layouts, a selection the layout has)
 	clean := prop == "C10" && r.Bool()
+	if !clean && prop == "C10" && r.Chance(1, 8) {
+		// matches something, but only the plain files inside an item directory: each is taken
+		// as an item and holds no file to sum
+		itemPat = "i1/*"
+	}
 	if clean {
 		pat = []string{"*.wsp", "f?.wsp", "f[0-2].wsp"}[r.Intn(3)]
 		itemPat = []string{"i*", "i1", "n/*", "i[12]"}[r.Intn(4)]
@@ -456,6 +461,11 @@ func genSumCase(r *Rng, prop string) []Op {
 			// items are matched on their directory form relative to the base
 			itemSpecs = append(itemSpecs, strings.Join(files, "+")+">dst/"+dir+"/sum.wsp")
 		}
+		if itemPat == "i1/*" && dir == "i1" {
+			for f := 0; f < n; f++ {
+				itemSpecs = append(itemSpecs, fmt.Sprintf(">dst/i1/f%d.wsp/sum.wsp", f))
+			}
+		}
 		if mismatch {
 			oneFailure = true
 		}
@@ -476,7 +486,7 @@ func genSumCase(r *Rng, prop string) []Op {
 		is = strings.Join(itemSpecs, ";")
 	}
 	w := g.win()
-	if pat == "none*.wsp" || itemPat == "*" || itemPat == "zz*" {
+	if pat == "none*.wsp" || itemPat == "*" || itemPat == "zz*" || itemPat == "i1/*" {
 		// one failure at a time (source and destination are read concurrently)
 		w = g.winAll()
 	} else if oneFailure || clean {
@@ -794,7 +804,7 @@ func genLoudCase(r *Rng) []Op {
 		// finishes: a report of any size, even none, must not be lost silently
 		to = " textout=full"
 	}
-	c := r.Intn(8)
+	c := r.Intn(9)
 	if to == " textout=full" && c != 0 && c != 1 && c != 4 {
 		// with the commands that write, or report a difference, where the failure surfaces
 		// depends on the size of the report: kept to the reading commands here
@@ -820,6 +830,44 @@ func genLoudCase(r *Rng) []Op {
 	case 5:
 		ops = append(ops, Op{fmt.Sprintf("cmd sumcopy items=src/it/f0.wsp>dst/it/sum.wsp itempat=it srcpat=*.wsp dest=sum.wsp %s %s%s", g.opts(), wAny, to), true})
 		ops = g.fdisks(ops, true, "dst/it/sum.wsp")
+	case 8:
+		// an item of several files one of which — the last as often as not — has the same steps and
+		// a longer last archive: a layout mismatch is an error whatever archive is selected and
+		// however recent the window, also where every series asked for would have the same shape
+		nf := 2 + r.Intn(3)
+		odd := nf - 1
+		if r.Bool() {
+			odd = r.Intn(nf)
+		}
+		if r.Chance(1, 5) {
+			odd = -1 // all alike: the sum succeeds
+		}
+		var fs []string
+		for f := 0; f < nf; f++ {
+			lay := g.lay
+			if f == odd {
+				lay = nearLayout(r, g.lay)
+			}
+			ops = g.writeFile(ops, fmt.Sprintf("src/im/f%d.wsp", f), lay, 1+r.Intn(2))
+			fs = append(fs, fmt.Sprintf("src/im/f%d.wsp", f))
+		}
+		wv := g.winValid()
+		if r.Bool() {
+			// recent: inside the finest archive
+			a := r.Intn(g.lay.Ret(0))
+			wv = fmt.Sprintf("archive=%d from=%d until=%d", []int{-1, r.Intn(g.lay.K())}[r.Intn(2)], g.now-a, g.now-r.Intn(a+1))
+		}
+		switch r.Intn(3) {
+		case 0:
+			ops = append(ops, Op{fmt.Sprintf("cmd sum items=%s> itempat=im srcpat=*.wsp header=1 %s%s", strings.Join(fs, "+"), wv, to), true})
+		case 1:
+			ops = g.writeFile(ops, "dst/im/sum.wsp", g.lay, r.Intn(2))
+			ops = append(ops, Op{fmt.Sprintf("cmd sumcopy items=%s>dst/im/sum.wsp itempat=im srcpat=*.wsp dest=sum.wsp %s %s%s", strings.Join(fs, "+"), g.opts(), wv, to), true})
+			ops = g.fdisks(ops, true, "dst/im/sum.wsp")
+		default:
+			ops = g.writeFile(ops, "dst/im/sum.wsp", g.lay, r.Intn(2))
+			ops = append(ops, Op{fmt.Sprintf("cmd sumdiff items=%s>dst/im/sum.wsp itempat=im srcpat=*.wsp dest=sum.wsp %s%s", strings.Join(fs, "+"), wv, to), true})
+		}
 	case 7:
 		// several items in one run: an earlier item reports a difference (its destination is
 		// missing), a later one compares clean — the run as a whole still reports the difference
